@@ -1084,6 +1084,7 @@ class SKEData(Packet):
 
     def __copy__(self):
         skd = self.__class__()
+        skd.header = copy.copy(self.header)
         skd.ct = self.ct[:]
         return skd
 
@@ -1557,6 +1558,7 @@ class IntegrityProtectedSKEDataV1(IntegrityProtectedSKEData):
 
     def __copy__(self):
         skd = self.__class__()
+        skd.header = copy.copy(self.header)
         skd.ct = self.ct[:]
         return skd
 
